@@ -663,7 +663,11 @@ class Program:
         if k == 'tuple':
             return dict(ty, elems=[self.subst_ty(a, env) for a in ty['elems']])
         if k in ('array', 'slice') and 'elem' in ty:
-            return dict(ty, elem=self.subst_ty(ty['elem'], env))
+            out = dict(ty, elem=self.subst_ty(ty['elem'], env))
+            if k == 'array' and out.get('len') is None and out.get('len_param') and (env.get(out['len_param']) or {}).get('k') == 'cval':
+                out['len'] = env[out['len_param']]['int']
+                out['len_param'] = None
+            return out
         return ty
 
     @staticmethod
@@ -671,6 +675,8 @@ class Program:
         if not isinstance(ty, dict):
             return False
         if ty.get('k') in ('param', 'alias', 'other', 'opaque'):
+            return True
+        if ty.get('k') == 'array' and ty.get('len') is None:
             return True
         return any(Program.has_param(x) for key in ('args', 'elems', 'upvars') for x in (ty.get(key) or [])) or \
             any(Program.has_param(ty[key]) for key in ('to', 'elem') if key in ty)
@@ -1006,8 +1012,15 @@ class Engine:
 
     def load(self, pl, st, fr):
         cell, path = self.resolve_place(pl, st, fr)
-        if cell not in st.store:
-            raise Undecided('read of unassigned local _%s' % (cell[2] if cell[0] == 'L' else cell,))
+        if cell not in st.store or (st.store[cell] is None and cell[0] == 'L' and cell[1] == fr.uid):
+            z = None
+            if cell[0] == 'L' and cell[1] == fr.uid and cell[2] < len(fr.body['locals']):
+                lty = fr.body['locals'][cell[2]]['ty']
+                z = self.zst_of(self.prog.subst_ty(lty, fr.targs) if fr.targs else lty)
+            if z is None and cell not in st.store:
+                raise Undecided('read of unassigned local _%s' % (cell[2] if cell[0] == 'L' else cell,))
+            if z is not None:
+                st.store[cell] = z
         return self.get_path(st.store[cell], path, st)
 
     def storev(self, pl, v, st, fr, span=None):
@@ -1029,6 +1042,12 @@ class Engine:
             return C(wrap(o['int'], tk), tk)
         if 'promoted' in o:
             return self.eval_promoted(o['promoted'], st, fr)
+        if 'cparam' in o:
+            # a const generic parameter used as a value: known when the frame runs for a known instantiation
+            a = (fr.targs or {}).get(o['cparam'])
+            if a is None or a.get('k') != 'cval' or tk is None:
+                raise Undecided('value of the const parameter %s is not known here' % o['cparam'])
+            return C(wrap(a['int'], tk), tk)
         if 'assoc' in o and 'int' not in o and 'val' not in o and fr.targs and o['assoc'].get('args'):
             # `<T as Trait>::CONST` in generic code running for a known instantiation
             ac = o['assoc']
@@ -1072,6 +1091,23 @@ class Engine:
         if k == 'ref':
             raise Undecided('zero-sized constant containing a reference')
         raise Undecided('zero-sized constant of type %s' % k)
+
+    def zst_of(self, ty, depth=0):
+        """The only value of `ty` if it is a zero-sized struct / tuple (recursively), else None."""
+        k = ty.get('k') if isinstance(ty, dict) else None
+        if depth > 6:
+            return None
+        if k == 'tuple':
+            fs = [self.zst_of(e, depth + 1) for e in ty['elems']]
+            return None if any(f is None for f in fs) else ('adt', '(tuple)', 0, tuple(fs))
+        if k == 'adt' and ty['path'] in self.prog.adts and self.prog.adts[ty['path']]['kind'] == 'struct':
+            try:
+                ftys = self.prog.variant_field_tys(ty, 0)
+            except Exception:
+                return None
+            fs = [self.zst_of(e, depth + 1) for e in ftys]
+            return None if any(f is None for f in fs) else ('adt', ty['path'], 0, tuple(fs))
+        return None
 
     def static_cell(self, path, st):
         cell = ('S', path)
@@ -1196,6 +1232,12 @@ class Engine:
             cell, path = self.resolve_place(rv['pl'], st, fr)
             if rv['mut'] and cell[0] == 'H':
                 st.events.append(('mutborrow', cell, path, sp, fr.fn['path']))
+            if not path and not pj and cell[0] == 'L' and cell[1] == fr.uid and st.store.get(cell) is None:
+                # a borrow of a local that was never written: a zero-sized value whose assignment release-like MIR dropped
+                lty = fr.body['locals'][cell[2]]['ty']
+                z = self.zst_of(self.prog.subst_ty(lty, fr.targs) if fr.targs else lty)
+                if z is not None:
+                    st.store[cell] = z
             return ('ref', cell, path)
         if k == 'rawptr':
             # `&raw const place`: only ever used here to read slice metadata / re-derive a reference
@@ -1327,6 +1369,8 @@ class Engine:
                     return C(rv['variant'], 'E:' + rv['path'])
                 return ('adt', rv['path'], rv['variant'], ops)
             raise Undecided('aggregate ' + rv.get('s', rv['kind']), sp)
+        if k == 'repeat' and rv.get('n') is None and rv.get('n_param') and (fr.targs or {}).get(rv['n_param'], {}).get('k') == 'cval':
+            rv = dict(rv, n=fr.targs[rv['n_param']]['int'])
         if k == 'repeat' and rv.get('n') is not None and rv['n'] <= 4096:
             return ('arr', (self.operand(rv['op'], st, fr),) * rv['n'])
         raise Undecided('rvalue ' + rv.get('s', k)[:80], sp)
@@ -1606,7 +1650,10 @@ class Engine:
                     for c in [c for c in st.store if c[0] == 'L' and c[1] == fr.uid]:
                         del st.store[c]
                 if rv is None:
-                    rv = ('adt', '(tuple)', 0, ())
+                    # the return place was never written: the function returns a zero-sized value (release-like MIR drops the
+                    # assignment of ZSTs); the value is the one of the declared return type
+                    rty = fr.body['locals'][0]['ty']
+                    rv = self.zst_of(self.prog.subst_ty(rty, fr.targs) if fr.targs else rty) or ('adt', '(tuple)', 0, ())
                 if isinstance(fr.ret_to, tuple) and fr.ret_to[0] == 'store':
                     st.store[fr.ret_to[1]] = rv     # value of a promoted constant; the interrupted step is re-executed
                 elif fr.ret_to == 'resume-terminator':
